@@ -4,6 +4,7 @@ package main
 // gating. Shape I in layers (+ H for derivation chains).
 
 import (
+	"bufio"
 	"context"
 	"encoding/json"
 	"errors"
@@ -36,6 +37,7 @@ type c15case struct {
 	Debug    bool     `json:"debug_mode,omitempty"`
 	Reg      bool     `json:"customs_registered,omitempty"` // custom levels treated as Error/Warn/Info/Debug are registered first
 	TimeCfg  string   `json:"time_cfg,omitempty"`           // time settings of the logger behind the handler: utc | local | layout-utc (each disagrees with the local-time flag)
+	RecYear  int      `json:"record_year,omitempty"`        // Handle: the record's own time lies in this year (0 = the usual instant of 2021)
 	Ctx      string   `json:"ctx,omitempty"`                // the context handed to the handler / logger: "" Background | cancelled | deadline-exceeded | with-values (it never matters by the statement)
 	WriterOp string   `json:"writer_op,omitempty"`          // L4x: what is done to the writers of the logger behind the handler after the derivation
 	Level2   int      `json:"level2,omitempty"`             // L4c: level of the logger at the time of the second derivation
@@ -441,6 +443,58 @@ func c15eval(cas c15case) *Violation {
 		}
 		return nil
 	case "Bridge":
+		if cas.Layer == "L5c-bridge-behind-bufio" || cas.Layer == "L5d-bridge-writer-was-a-destination-first" {
+			std := slog.NewLogLogger(w.l, slog.Level(cas.BridgeLv))
+			adm, fixed := refAdmit(effLevel, slog.Level(cas.BridgeLv), cas.Debug, nil)
+			if !fixed {
+				return nil
+			}
+			want := 0
+			var pan string
+			if cas.Layer == "L5c-bridge-behind-bufio" {
+				// something from bufio sits between the log.Logger and the bridge's writer: three messages, then Flush
+				bw := bufio.NewWriter(std.Writer())
+				std.SetOutput(bw)
+				pan = catch(func() {
+					for _, m := range []string{"one", "two", "three"} {
+						std.Print(m)
+						_ = bw.Flush()
+					}
+				})
+				if adm {
+					want = 3
+				}
+			} else {
+				// the bridge's writer is first used as the destination of ANOTHER logger (records of other severities go
+				// through it), then the bridge itself prints: its severity is still the one it was built with
+				other := slog.New("other").SetWriter(std.Writer()).SetErrorWriter(std.Writer()).SetLevel(slog.AlwaysLevel).SetColorMode(false)
+				pan = catch(func() {
+					other.Error("from the other logger")
+					other.Debug("from the other logger")
+				})
+				w.rec.reset()
+				pan += catch(func() { std.Print("direct") })
+				if adm {
+					want = 1
+				}
+			}
+			if pan != "" {
+				return mk("call-returns", firstLine(pan))
+			}
+			if len(w.rec.events) != want {
+				return mk("bridge-gating", fmt.Sprintf("bridge severity %s on a %s logger: %d records written, expected %d", levelName(slog.Level(cas.BridgeLv)), levelName(effLevel), len(w.rec.events), want))
+			}
+			for _, e := range w.rec.events {
+				r, er := c15decode(e.Payload, cas.Format)
+				if er != "" {
+					return mk("decodable", er)
+				}
+				if !c15levelMatches(cas.Format, r.level, slog.Level(cas.BridgeLv)) {
+					return mk("bridge-severity", fmt.Sprintf("record level %q, bridge severity %s", r.level, levelName(slog.Level(cas.BridgeLv))))
+				}
+			}
+			return nil
+		}
 		if cas.Layer == "L5b-bridge-then-setlevel" {
 			// the bridge is built while the logger has another level; admission must follow the level at the time of the call
 			w.l.SetLevel(slog.Level(cas.OptLevel))
@@ -815,9 +869,13 @@ func c15eval(cas c15case) *Violation {
 		attrs = append(attrs, logslog.Int("own", 5))
 	}
 	ns, std := c15standard[cas.SlogLvl]
+	recTime := tsZone
+	if cas.RecYear != 0 {
+		recTime = time.Date(cas.RecYear, 7, 4, 12, 30, 45, 123456000, time.FixedZone("", 5*3600+1800))
+	}
 	pan := catch(func() {
 		if cas.Via == "Handle" {
-			rec := logslog.NewRecord(tsZone, logslog.Level(cas.SlogLvl), msg, 0)
+			rec := logslog.NewRecord(recTime, logslog.Level(cas.SlogLvl), msg, 0)
 			rec.AddAttrs(attrs...)
 			_ = h.Handle(ctx, rec)
 		} else {
@@ -864,12 +922,12 @@ func c15eval(cas c15case) *Violation {
 	}
 	if cas.Via == "Handle" && cas.Format != "color" {
 		// the record's own instant (LstdFlags: local = the instant's own zone)
-		want := tsZone.Format(refDefaultLayout())
+		want := recTime.Format(refDefaultLayout())
 		switch cas.TimeCfg {
 		case "utc":
-			want = tsZone.UTC().Format(refDefaultLayout())
+			want = recTime.UTC().Format(refDefaultLayout())
 		case "layout-utc":
-			want = tsZone.UTC().Format(time.RFC1123Z)
+			want = recTime.UTC().Format(time.RFC1123Z)
 		}
 		if r.time != want {
 			return mk("record-time", fmt.Sprintf("record time %q, the record's own instant is %q", r.time, want))
@@ -908,6 +966,14 @@ func c15eval(cas c15case) *Violation {
 		}
 	} else if at.name != "Group empty" && !have("k") {
 		return mk("record-attrs", fmt.Sprintf("attribute k (%s) missing: %.250q", at.name, p))
+	}
+	if at != nil && cas.Format == "logfmt" && strings.Contains(at.name, "Group") && at.name != "Group empty" {
+		// a group has no pair of its own in logfmt: its members are printed under dotted keys (C05)
+		for _, kk := range r.keys {
+			if kk == "k" {
+				return mk("attr-value", fmt.Sprintf("%s: the group itself got a pair k= next to its members: %.250q", at.name, p))
+			}
+		}
 	}
 	c15last = p
 	return nil
@@ -1019,6 +1085,14 @@ func c15cases(thorough bool, emit func(c15case)) {
 			emit(c15case{Layer: "L4w-level-writer", Format: f, LogLevel: int(slog.TraceLevel), SlogLvl: 4, Chain: ch, Via: "Handle"})
 		}
 	}
+	// L2y: the record's own time far from the present (through Handle, every format and time configuration)
+	for _, f := range formats {
+		for _, y := range []int{1, 1500, 1677, 2263, 2500, 9999} {
+			for _, tc := range []string{"", "utc"} {
+				emit(c15case{Layer: "L2y-record-year", Format: f, LogLevel: int(slog.TraceLevel), SlogLvl: 4, Via: "Handle", RecYear: y, TimeCfg: tc})
+			}
+		}
+	}
 	// L4x: the writers of the logger behind the handler change after a handler was derived from it
 	for _, f := range formats {
 		for _, op := range []string{"RemoveWriter(console)", "RemoveWriter(file)", "AddWriter(third)", "SetWriter(third)", "RemoveWriter(console) AddWriter(third)"} {
@@ -1051,6 +1125,15 @@ func c15cases(thorough bool, emit func(c15case)) {
 		for _, L1 := range []slog.Level{slog.OffLevel, slog.ErrorLevel, slog.WarnLevel, slog.InfoLevel, slog.TraceLevel, slog.AlwaysLevel} {
 			for _, b := range []slog.Level{slog.ErrorLevel, slog.WarnLevel, slog.InfoLevel, slog.DebugLevel, slog.AlwaysLevel, slog.OKLevel} {
 				emit(c15case{Layer: "L5b-bridge-then-setlevel", Format: "json", OptLevel: int(L0), LogLevel: int(L1), BridgeLv: int(b), MsgQ: strconv.Quote("a\n"), Via: "Bridge"})
+			}
+		}
+	}
+	// L5c / L5d: the bridge behind a bufio.Writer; the bridge's writer used as a destination of another logger first
+	for _, L := range []slog.Level{slog.ErrorLevel, slog.InfoLevel, slog.TraceLevel} {
+		for _, b := range []slog.Level{slog.ErrorLevel, slog.InfoLevel, slog.DebugLevel} {
+			for _, f := range []string{"json", "logfmt"} {
+				emit(c15case{Layer: "L5c-bridge-behind-bufio", Format: f, LogLevel: int(L), BridgeLv: int(b), Via: "Bridge"})
+				emit(c15case{Layer: "L5d-bridge-writer-was-a-destination-first", Format: f, LogLevel: int(L), BridgeLv: int(b), Via: "Bridge"})
 			}
 		}
 	}
